@@ -291,4 +291,13 @@ pub fn gen_c19(g: &mut Gen, tier: &str) {
         }
     }
     for junk in [&b""[..], b"TZif", b"TZif2", b"TZiX", b"\0\0\0\0"] { push_hostile(g, junk.to_vec()); }
+    // version-1 files without transitions whose type count is zero (header only, and a valid UTC file with the count cleared),
+    // the same for version 2 with an empty footer
+    for v in [1u8, 2, 3] {
+        let ast = TzAst { version: v, trans: vec![], types: vec![0], rule: Rule::None };
+        let good = encode(&ast, false, (0, 0, 0, 0));
+        let hdr = if v == 1 { 0 } else { good.windows(4).skip(4).position(|w| w == b"TZif").map(|p| p + 4).unwrap_or(0) };
+        let mut b = good.clone(); b[hdr + 36..hdr + 40].copy_from_slice(&0u32.to_be_bytes()); push_hostile(g, b.clone());
+        b.truncate(hdr + 44); if v > 1 { b.extend(b"\n\n"); } push_hostile(g, b);
+    }
 }
